@@ -501,6 +501,256 @@ func runF7(stats map[string]int) (string, map[string]any) {
 	return term, map[string]any{"kind": "sync-run", "scenario": "F7: Ping slot taken by another Ping's release path", "events": len(items)}
 }
 
+// runF6 schedules Close into a handshake that waits for its CONNACK (the F6 schedule), in
+// real time outside a bubble: on a tree with the defect ReadSlices and Close never return.
+func runF6(stats map[string]int) (string, map[string]any) {
+	rec := &syncRec{}
+	mqtt.VerifEvent = rec.hook
+	defer func() { mqtt.VerifEvent = nil }()
+	log := &evlog{}
+	store := newSimStore(log)
+	inHandshake := make(chan struct{})
+	var once sync.Once
+	dialer := &simDialer{log: log}
+	dialer.onDial = func(id int) (*simConn, bool) {
+		c := &simConn{closedCh: make(chan struct{})}
+		c.onRead = func(c *simConn, armed bool, want int) readAns {
+			once.Do(func() { close(inHandshake) })
+			c.mu.Unlock()
+			<-c.closedCh // the CONNACK never comes
+			c.mu.Lock()
+			return readAns{kind: rClosed}
+		}
+		c.onWrite = func(c *simConn, p []byte) writeAns { return writeAns{kind: wOk, n: len(p)} }
+		return c, true
+	}
+	cfg := mqtt.Config{Dialer: dialer.dial, PauseTimeout: time.Minute}
+	client, err := mqtt.InitSession("f6", store, &cfg)
+	if err != nil {
+		panic(err)
+	}
+	var mu sync.Mutex
+	var calls []apiObs
+	note := func(g, kind int, err error, after bool) {
+		mu.Lock()
+		calls = append(calls, apiObs{g, kind, classOf(err), after})
+		mu.Unlock()
+	}
+	call := func(kind int, after bool, f func() error) {
+		done := make(chan error, 1)
+		var g int
+		go func() { g = gid(); done <- safelyNow(f) }()
+		select {
+		case err := <-done:
+			note(g, kind, err, after)
+		case <-time.After(2 * time.Second):
+			note(g, kind, errHung, after)
+			stats["f6:hung"]++
+		}
+	}
+	// one goroutine makes all ReadSlices calls (the client's contract)
+	type rres struct {
+		g   int
+		err error
+	}
+	rch := make(chan rres, 4)
+	goAgain := make(chan struct{})
+	go func() {
+		g := gid()
+		rch <- rres{g, safelyNow(func() error { _, _, err := client.ReadSlices(); return err })}
+		<-goAgain
+		rch <- rres{g, safelyNow(func() error { _, _, err := client.ReadSlices(); return err })}
+	}()
+	<-inHandshake
+	call(3, false, client.Close)
+	waitR := func(after bool) bool {
+		select {
+		case r := <-rch:
+			note(r.g, 0, r.err, after)
+			return true
+		case <-time.After(2 * time.Second):
+			note(0, 0, errHung, after)
+			stats["f6:hung"]++
+			return false
+		}
+	}
+	if waitR(false) {
+		close(goAgain)
+		waitR(true)
+	}
+	call(2, true, func() error { _, err := client.PublishAtLeastOnce(nil, "t"); return err })
+	items := []string{}
+	rec.mu.Lock()
+	for _, e := range rec.events {
+		if t, ok := coqSyncEvent(e); ok {
+			items = append(items, fmt.Sprintf("mkObs %d (%s)", e.g, t))
+		}
+	}
+	rec.mu.Unlock()
+	cs := make([]string, len(calls))
+	for i, c := range calls {
+		cs[i] = fmt.Sprintf("mkApi %d %d %d %s", c.g, c.kind, c.cls, coqBool(c.afterClose))
+	}
+	term := "SyncCase [" + strings.Join(items, ";\n    ") + "]\n   [" + strings.Join(cs, "; ") + "]"
+	return term, map[string]any{"kind": "sync-run", "scenario": "F6: Close while the handshake waits for CONNACK", "events": len(items)}
+}
+
+// runF20 schedules the F20 window with the hooks as yield points: Close is parked right after
+// it canceled the context; the first dial honours the cancellation, so ReadSlices returns
+// ErrClosed and termCallbacks closes the sequence semaphores; ReadSlices is called again and
+// wins connSem; the second dial ignores the context and hands out a connection with a ready
+// CONNACK; the abort goroutine is held back until the handshake is through. Without the context
+// check after connSem is taken, connect goes on to a send on a closed sequence semaphore.
+func runF20(stats map[string]int) (string, map[string]any) {
+	var best string
+	var bestDesc map[string]any
+	for try := 0; try < 6; try++ {
+		rec := &syncRec{}
+		var kGid, rGid int
+		parkK, kParked := make(chan struct{}), make(chan struct{})
+		parkA := make(chan struct{})
+		var onceK, onceA, onceD sync.Once
+		mqtt.VerifEvent = func(site string, args ...int) {
+			rec.hook(site, args...)
+			g := gid()
+			switch {
+			case site == "cl.canceled" && g == kGid:
+				onceK.Do(func() { close(kParked); <-parkK })
+			case site == "dc.abort.start":
+				if dialsSeen(rec) >= 2 {
+					onceA.Do(func() { <-parkA })
+				}
+			case site == "doneClose" && g == rGid:
+				if dialsSeen(rec) >= 2 {
+					onceD.Do(func() { close(parkA) })
+				}
+			}
+		}
+		log := &evlog{}
+		store := newSimStore(log)
+		dialer := &simDialer{log: log}
+		dialing := make(chan struct{})
+		var ctxOf = make(chan context.Context, 2)
+		dialer.onDial = func(id int) (*simConn, bool) {
+			if id == 0 && len(dialer.conns) == 0 && dialsSeen(rec) == 0 {
+				// first dial: wait for the cancellation, then fail (honours the context)
+				close(dialing)
+				ctx := <-ctxOf
+				<-ctx.Done()
+				return nil, false
+			}
+			sent := false
+			c := &simConn{closedCh: make(chan struct{})}
+			c.onRead = func(c *simConn, armed bool, want int) readAns {
+				if !sent {
+					sent = true
+					return readAns{kind: rData, data: []byte{0x20, 2, 0, 0}}
+				}
+				c.mu.Unlock()
+				<-c.closedCh
+				c.mu.Lock()
+				return readAns{kind: rClosed}
+			}
+			c.onWrite = func(c *simConn, p []byte) writeAns { return writeAns{kind: wOk, n: len(p)} }
+			return c, true
+		}
+		cfg := mqtt.Config{Dialer: func(ctx context.Context) (net.Conn, error) {
+			select {
+			case ctxOf <- ctx:
+			default:
+			}
+			return dialer.dial(ctx)
+		}, PauseTimeout: 0}
+		client, err := mqtt.InitSession("f20", store, &cfg)
+		if err != nil {
+			panic(err)
+		}
+		var mu sync.Mutex
+		var calls []apiObs
+		note := func(g, kind int, err error, after bool) {
+			mu.Lock()
+			calls = append(calls, apiObs{g, kind, classOf(err), after})
+			mu.Unlock()
+		}
+		type rres struct{ err error }
+		rch := make(chan rres, 4)
+		goAgain := make(chan struct{})
+		go func() {
+			rGid = gid()
+			rch <- rres{safelyNow(func() error { _, _, err := client.ReadSlices(); return err })}
+			<-goAgain
+			rch <- rres{safelyNow(func() error { _, _, err := client.ReadSlices(); return err })}
+		}()
+		<-dialing
+		kdone := make(chan error, 1)
+		go func() { kGid = gid(); kdone <- safelyNow(client.Close) }()
+		<-kParked
+		waitR := func() (error, bool) {
+			select {
+			case r := <-rch:
+				return r.err, true
+			case <-time.After(2 * time.Second):
+				return errHung, false
+			}
+		}
+		e1, ok := waitR()
+		note(rGid, 0, e1, false)
+		panicked := false
+		if ok {
+			close(goAgain)
+			e2, _ := waitR()
+			// Close has canceled but not returned: this call is not "after close" for sync_ok's ErrClosed rule,
+			// a panic or a hang is a failure in any case
+			note(rGid, 0, e2, false)
+			panicked = errors.Is(e2, errPanic)
+		}
+		close(parkK)
+		select {
+		case err := <-kdone:
+			note(kGid, 3, err, false)
+		case <-time.After(2 * time.Second):
+			note(kGid, 3, errHung, false)
+		}
+		select {
+		case <-parkA:
+		default:
+			close(parkA)
+		}
+		mqtt.VerifEvent = nil
+		items := []string{}
+		rec.mu.Lock()
+		for _, e := range rec.events {
+			if t, ok := coqSyncEvent(e); ok {
+				items = append(items, fmt.Sprintf("mkObs %d (%s)", e.g, t))
+			}
+		}
+		rec.mu.Unlock()
+		cs := make([]string, len(calls))
+		for i, c := range calls {
+			cs[i] = fmt.Sprintf("mkApi %d %d %d %s", c.g, c.kind, c.cls, coqBool(c.afterClose))
+		}
+		best = "SyncCase [" + strings.Join(items, ";\n    ") + "]\n   [" + strings.Join(cs, "; ") + "]"
+		bestDesc = map[string]any{"kind": "sync-run", "scenario": "F20: ReadSlices re-enters connect while Close is between cancel and connSem", "events": len(items), "try": try}
+		if panicked {
+			stats["f20:panic"]++
+			break
+		}
+	}
+	return best, bestDesc
+}
+
+func dialsSeen(rec *syncRec) int {
+	rec.mu.Lock()
+	defer rec.mu.Unlock()
+	n := 0
+	for _, e := range rec.events {
+		if e.site == "dc.dial" {
+			n++
+		}
+	}
+	return n
+}
+
 func runSync(name string, withF7 bool, tier string, seed uint64, out string) error {
 	n := 80
 	if tier == "thorough" {
@@ -509,12 +759,25 @@ func runSync(name string, withF7 bool, tier string, seed uint64, out string) err
 	cs := newCaseSet(name, "SyncCheck", "synccase", "sync_run")
 	stats := map[string]int{}
 	r := newRng(seed)
+	{
+		term, desc := runF6(stats)
+		desc["index"] = -2
+		cs.add(term, desc, "sync-run", true)
+		term, desc = runF20(stats)
+		desc["index"] = -3
+		cs.add(term, desc, "sync-run", true)
+	}
 	if withF7 {
 		var term string
 		var desc map[string]any
 		term, desc = runF7(stats)
 		desc["index"] = -1
 		cs.add(term, desc, "sync-run", true)
+	}
+	// the scheduled scenarios are on disk before the random runs start: a bubble that deadlocks
+	// takes the process down
+	if err := cs.write(out, 5); err != nil {
+		return err
 	}
 	for i := 0; i < n; i++ {
 		hr := newRng(r.u64())
